@@ -70,6 +70,10 @@ def check(run):
     from . import C11 as _C11, C01 as _C01
     R.rule('C14.whole', 'a Pong goes out whole and in turn: every socket write is inside the session lock; a Ping of up to 125 '
                         'bytes (any legal length encoding) is accepted by the frame checks', 6)
+    with R.as_rule('C14.interleave'):
+        C05.track(R)             # a Ping between text fragments does not disturb the text tracking / validator state
+    with R.as_rule('C14.payload'):
+        _C01.alias(R)            # the Ping payload the Pong repeats is a private copy, not a view of the receive buffer
     with R.as_rule('C14.whole'):
         _C11.locked(R)
     _C01.accept(R, RID='C14.whole')
